@@ -859,7 +859,7 @@ def shadow_case(sy, integ, T, keys, com, tp, opts):
     slots = [0] if tp is not None else idxs
     slot = (lambda i: 0) if tp is not None else (lambda i: i)
     tparg = tp if tp is not None else -1
-    shrink = opts.get("shrink", min(1.0, (10.0 / T) ** 0.45))
+    shrink = opts.get("shrink", min(1.0, (10.0 / abs(T)) ** 0.45))
 
     def finish(sim):
         if com:
@@ -1223,6 +1223,234 @@ def run_phase(c, name, fn, timeout):
         c.violation("crash:" + name, "phase '%s' crashed (python exception or abort of the real code)" % name, {"traceback": val[-3000:]})
 
 
+# ============================================================================ search: WHFast tangent map over its regime
+def halving_passes(z):
+    """port of the argument-reduction loop of stumpff_cs (integrator_whfast.c:79-84): number of z -> z/4 passes"""
+    n = 0
+    z = abs(z)
+    while z > 0.1:
+        z = z / 4.0
+        n += 1
+    return n
+
+
+def delta_anomaly(e, E0, dM):
+    """increment of the eccentric (e<1) or hyperbolic (e>1) anomaly for a mean-anomaly increment dM.
+    For a Kepler step beta*X^2 = dE^2 (elliptic) or -dH^2 (hyperbolic)."""
+    if e < 1:
+        M1 = E0 - e * math.sin(E0) + dM
+        E = E0 + dM
+        for _ in range(200):
+            d = (E - e * math.sin(E) - M1) / (1 - e * math.cos(E))
+            E -= d
+            if abs(d) < 1e-15:
+                break
+        return E - E0
+    N1 = e * math.sinh(E0) - E0 + dM
+    H = E0 + dM / max(e * math.cosh(E0) - 1, 1e-3)
+    for _ in range(300):
+        d = (e * math.sinh(H) - H - N1) / (e * math.cosh(H) - 1)
+        d = max(-1.0, min(1.0, d))
+        H -= d
+        if abs(d) < 1e-15:
+            break
+    return H - E0
+
+
+def romberg(D, h):
+    Dh2, Dh, D2h = D(h / 2), D(h), D(2 * h)
+    R1 = [(4 * x - y) / 3 for x, y in zip(Dh, D2h)]
+    R2 = [(4 * x - y) / 3 for x, y in zip(Dh2, Dh)]
+    return [(16 * x - y) / 15 for x, y in zip(R2, R1)], R1, R2
+
+
+def search_whfast_tangent(c, rebound):
+    """The WHFast tangent map is the exact derivative of the discrete WHFast map, so finite differences of
+    WHFast itself AT THE SAME dt are a sharp oracle.  The helpers of the tangent map (stumpff_cs: argument
+    reduction by repeated z->z/4 and the duplication loop that undoes it) have branches that only large
+    eccentric-anomaly increments reach: the regime (e up to 0.95, |dt|/P from 1/100 to 1/2, both signs,
+    hyperbolic orbits) is scanned and the number of halving passes reached is recorded; the tangent map is
+    only called covered if >=2-pass cases were hit."""
+    clib = rebound.clibrebound
+    P = rebound.Particle
+    cd = ctypes.c_double
+    clib.reb_particle_from_orbit.restype = P
+    # ---------------------------------------------------------------- (A) reb_whfast_kepler_solver called directly
+    sim0 = rebound.Simulation()
+    sim0.add(m=1.0)
+    sim0.add(m=1e-3, a=1.0)
+    sim0.integrator = "whfast"
+    v0 = sim0.add_variation()
+    idx, N0 = v0.index, sim0.N
+
+    def solve(state, var, M, dt):
+        arr = (P * N0)()
+        arr[1].x, arr[1].y, arr[1].z, arr[1].vx, arr[1].vy, arr[1].vz = state
+        q = arr[1 + idx]
+        q.x, q.y, q.z, q.vx, q.vy, q.vz = var
+        clib.reb_whfast_kepler_solver(ctypes.byref(sim0), arr, cd(M), ctypes.c_uint(1), cd(dt))
+        return [arr[1].x, arr[1].y, arr[1].z, arr[1].vx, arr[1].vy, arr[1].vz], [q.x, q.y, q.z, q.vx, q.vy, q.vz]
+    ncases = 20000 if c.thorough else 2500
+    hist, worst = {}, {}
+    fails = []
+    ninc = 0
+    for case in range(ncases):
+        rng = c.rng.fork()
+        M = rng.loguniform(0.1, 10)
+        hyper = rng.chance(0.15)
+        if hyper:
+            e = rng.uniform(1.05, 3.0)
+            a = -rng.loguniform(0.3, 3)
+            fmax = math.acos(-1 / e) * 0.7
+            f = rng.uniform(-fmax, fmax)
+            tscale = math.sqrt(abs(a) ** 3 / M)
+            dt = tscale * rng.loguniform(0.02, 3.0) * rng.choice([-1, 1])
+            E0 = 2 * math.atanh(math.sqrt((e - 1) / (e + 1)) * math.tan(f / 2))
+            dA = delta_anomaly(e, E0, dt / tscale)
+        else:
+            e = rng.choice([rng.uniform(0, 0.3), rng.uniform(0.3, 0.95)])
+            a = rng.loguniform(0.3, 3)
+            f = rng.uniform(0, 2 * math.pi)
+            Pp = 2 * math.pi * math.sqrt(a ** 3 / M)
+            dt = Pp * rng.loguniform(0.01, 0.5) * rng.choice([-1, 1])
+            E0 = 2 * math.atan2(math.sqrt(1 - e) * math.sin(f / 2), math.sqrt(1 + e) * math.cos(f / 2))
+            dA = delta_anomaly(e, E0, 2 * math.pi * dt / Pp)
+        npass = halving_passes(dA * dA)
+        po = clib.reb_particle_from_orbit(cd(1.0), P(m=M), cd(0.0), cd(a), cd(e), cd(rng.uniform(0, 1.0)), cd(rng.uniform(0, 6)),
+                                          cd(rng.uniform(0, 6)), cd(f))
+        st = [po.x, po.y, po.z, po.vx, po.vy, po.vz]
+        rr = norm3(st[:3]); vv = norm3(st[3:])
+        dlt = [rng.normal() * rr for _ in range(3)] + [rng.normal() * vv for _ in range(3)]
+        out, var = solve(st, dlt, M, dt)
+
+        def D(h, st=st, dlt=dlt, M=M, dt=dt):
+            p_, _ = solve([s_ + h * x for s_, x in zip(st, dlt)], [0.0] * 6, M, dt)
+            m_, _ = solve([s_ - h * x for s_, x in zip(st, dlt)], [0.0] * 6, M, dt)
+            return [(x - y) / (2 * h) for x, y in zip(p_, m_)]
+        fd, R1, R2 = romberg(D, 1e-5)
+        err, unc = rel_err(var, fd), rel_err(R1, R2)
+        key = ("hyp" if hyper else "ell", min(npass, 5))
+        hist[key] = hist.get(key, 0) + 1
+        c.count(("kepler-tangent", key), nontrivial=True)
+        if unc > 2.5e-5:
+            ninc += 1
+            continue
+        if err > worst.get(key, 0.0):
+            worst[key] = err
+        if not err <= 1e-6 + 4 * unc:
+            fails.append(dict(M=M, a=a, e=e, f=f, dt=dt, state=st, variation=dlt, halving_passes=npass, tangent_map=var,
+                              finite_difference=fd, rel_err=err, oracle_uncertainty=unc))
+    c.cov["whfast_kepler_tangent"] = {"cases": ncases, "inconclusive": ninc,
+                                      "halving_passes_histogram": {"%s/%d" % k: v for k, v in sorted(hist.items())},
+                                      "worst_rel_by_passes": {"%s/%d" % k: float("%.3g" % v) for k, v in sorted(worst.items())},
+                                      "threshold": 1e-6}
+    if fails:
+        bad = max(fails, key=lambda r: r["rel_err"])
+        c.violation("whfast-tangent:kepler-solver", "tangent map of reb_whfast_kepler_solver differs from the finite difference of the solver "
+                    "at the same dt by %.3g (%d of %d cases; worst at %d argument-halving passes of stumpff_cs, e=%.2f)" %
+                    (bad["rel_err"], len(fails), ncases, bad["halving_passes"], bad["e"]), bad)
+    deep = sum(v for (k, n), v in hist.items() if n >= 2)
+    if deep == 0 or ninc > 0.05 * ncases:
+        c.corr_break("WHFast tangent map NOT covered: %d cases reached >=2 halving passes of stumpff_cs, %d inconclusive" % (deep, ninc))
+    # ---------------------------------------------------------------- (B) full WHFast runs, wide regime, FD at the same dt
+    nsys = 12 if c.thorough else 3
+    fracs = [1 / 100, 1 / 30, 1 / 12, 1 / 6, 1 / 4]
+    hist2, worst2, ninc2, ntot2 = {}, {}, 0, 0
+    fails2 = []
+    for s_ in range(nsys):
+        rng = c.rng.fork()
+        e1 = [0.9, 0.75, 0.55, 0.12, 0.85, 0.65][s_ % 6] + rng.uniform(-0.04, 0.04)   # (0.18,0.31) avoided: F18 blurs vary()
+        bodies = [(rng.loguniform(1e-4, 1e-3), "orb", [1.0, e1, rng.uniform(0.02, 0.4), rng.uniform(0, 6.28), rng.uniform(0, 6.28), rng.uniform(0, 6.28)]),
+                  (rng.loguniform(1e-4, 1e-3), "orb", [rng.uniform(4.5, 6.0), rng.uniform(0.0, 0.4), rng.uniform(0.02, 0.4), rng.uniform(0, 6.28),
+                                                        rng.uniform(0, 6.28), rng.uniform(0, 6.28)])]
+        sy = System(rebound, 1.0, 1.0, bodies)
+        for frac in (fracs if (c.thorough or s_ == 0) else [fracs[(s_ + k) % 5] for k in (1, 3)]):
+            for sgn in (1, -1):
+                dt = sgn * 2 * math.pi * frac
+                T = sgn * 10.0
+                # histogram of halving passes actually reached along the base run (estimated from the osculating orbits)
+                sim = sy.build("whfast", None, {"dt": dt})
+                for k in range(int(abs(T / dt)) + 1):
+                    for i in (1, 2):
+                        o = sim.particles[i].orbit(primary=sim.particles[0])
+                        if not 0 <= o.e < 1:
+                            continue
+                        E0 = 2 * math.atan2(math.sqrt(1 - o.e) * math.sin(o.f / 2), math.sqrt(1 + o.e) * math.cos(o.f / 2))
+                        npass = halving_passes(delta_anomaly(o.e, E0, o.n * dt) ** 2)
+                        hist2[min(npass, 5)] = hist2.get(min(npass, 5), 0) + 1
+                    sim.step()
+                pars = [(1, "x"), (1, "vy"), (1, "a"), (1, "e"), (1, "f"), (1, "lambda"), (1, "h"), (2, "x"), (2, "e"), (0, "vx")]
+                if not c.thorough:
+                    pars = [pars[(s_ + 3 * k) % len(pars)] for k in range(4)]
+                for (i, par) in pars:
+                    sy2 = sy.with_kind(i, "pal") if par in PAL[2:] else sy
+                    try:
+                        err, unc, var, fd = shadow_case(sy2, "whfast", T, [(i, par)], s_ % 2 == 0, None, {"dt": dt})
+                    except Exception as ex:
+                        err, unc, var, fd = float("inf"), 0.0, [], [repr(ex)]
+                    ntot2 += 1
+                    c.count(("whfast-regime", round(e1, 1), frac, sgn, par), nontrivial=True)
+                    if unc > 2.5e-4:
+                        ninc2 += 1
+                        continue
+                    k = "e~%.1f dt=P/%d" % (e1, round(1 / frac))
+                    if err > worst2.get(k, 0.0):
+                        worst2[k] = err
+                    if not err <= 1e-4 + 4 * unc:
+                        fails2.append(dict(G=1.0, m0=1.0, bodies=sy2.bodies, dt=dt, T=T, key=[i, par], rel_err=err, oracle_uncertainty=unc,
+                                           variational=var[:12], finite_difference=fd[:12]))
+    c.cov["whfast_regime_runs"] = {"configurations": ntot2, "inconclusive": ninc2,
+                                   "halving_passes_per_kepler_step_histogram": {str(k): v for k, v in sorted(hist2.items())},
+                                   "worst_rel": {k: float("%.3g" % v) for k, v in sorted(worst2.items())}, "threshold": 1e-4}
+    if fails2:
+        bad = max(fails2, key=lambda r: r["rel_err"] if r["rel_err"] == r["rel_err"] else 0)
+        c.violation("whfast-tangent:regime", "WHFast first-order variation %s differs from the finite difference of WHFast runs at the same dt=%.3g "
+                    "by %.3g (%d of %d configurations)" % (bad["key"], bad["dt"], bad["rel_err"], len(fails2), ntot2), bad)
+    if sum(v for k, v in hist2.items() if k >= 2) == 0:
+        c.corr_break("WHFast regime runs never reached >=2 halving passes of stumpff_cs")
+    # WHFast must refuse variations in the coordinate systems whose tangent map does not exist
+    rej = {}
+    for coord in ("democraticheliocentric", "whds", "barycentric"):
+        sim = sy.build("whfast", None, {"dt": 0.01})
+        sim.ri_whfast.coordinates = coord
+        v = sim.add_variation()
+        v.particles[1].x = 1.0
+        try:
+            sim.integrate(0.1)
+            rej[coord] = "accepted"
+            c.violation("whfast:accepts-variation-" + coord, "WHFast silently integrates variations in %s coordinates" % coord, {"coordinates": coord})
+        except Exception as ex:
+            rej[coord] = "rejected: " + str(ex)[:70]
+    c.cov["whfast_variation_coordinates"] = dict(rej, jacobi="supported (all runs above)")
+    # ---------------------------------------------------------------- (C) MEGNO with WHFast, eccentric orbits, both dt signs
+    # the MEGNO time integral is a one-point rule per step (integrator_whfast.c:1237): it needs the pericentre passage resolved
+    # (dt <= T_peri/16); at coarser steps MEGNO of an exact two-body orbit is far from 2 (measured below, not alarmed)
+    meg = {}
+    for e in ((0.3, 0.6, 0.8, 0.9) if c.thorough else (0.6, 0.9)):
+        tperi = 2 * math.pi * math.sqrt((1 - e) ** 3 / (1 + e))
+        for n3 in (False, True):
+            bodies = [(1e-4, "orb", [1.0, e, 0.1, 0.3, 0.4, 0.5])] + ([(1e-4, "orb", [5.0, 0.3, 0.2, 1.3, 2.4, 1.5])] if n3 else [])
+            sy = System(rebound, 1.0, 1.0, bodies)
+            for sgn in (1, -1):
+                norb = 1000 if (c.thorough or e < 0.85) else 400
+                sim = sy.build("whfast", None, {"dt": sgn * tperi / 16})
+                sim.move_to_com()
+                sim.init_megno(seed=3)
+                sim.integrate(sgn * 2 * math.pi * norb)
+                Y, ly = sim.megno(), sim.lyapunov() * 2 * math.pi * norb
+                meg["e=%.1f N=%d dt%s" % (e, 3 if n3 else 2, "+" if sgn > 0 else "-")] = [float("%.5g" % Y), float("%.3g" % ly)]
+                c.count(("megno-ecc", e, n3, sgn), nontrivial=True)
+                if not (abs(Y - 2) <= 0.05 and abs(ly) <= 1.0):
+                    c.violation("megno:whfast-eccentric", "MEGNO = %.4f (lyap*T = %.3g) for e=%.1f, dt = %sT_peri/16 after %d orbits" %
+                                (Y, ly, e, "+" if sgn > 0 else "-", norb), dict(bodies=bodies, dt=sgn * tperi / 16, megno=Y))
+    sy = System(rebound, 1.0, 1.0, [(1e-4, "orb", [1.0, 0.6, 0.1, 0.3, 0.4, 0.5])])
+    sim = sy.build("whfast", None, {"dt": 2 * math.pi / 20})
+    sim.init_megno(seed=3)
+    sim.integrate(2 * math.pi * 1000)
+    meg["excluded: e=0.6 two-body, dt=P/20 (=T_peri/4), unresolved quadrature"] = [float("%.5g" % sim.megno())]
+    c.cov["megno_whfast_eccentric"] = meg
+
+
 def run(c):
     if "--replay" in sys.argv:
         # runs are reproducible from (seed, tier): a replay re-runs the check exactly as it ran when the file was written
@@ -1263,6 +1491,7 @@ def run(c):
     run_phase(c, "derivatives", lambda: search_derivatives(c, rebound), 120 * big)
     run_phase(c, "shadow", lambda: search_shadow(c, rebound), 150 * (10 if c.thorough else 1))
     run_phase(c, "rescale-megno", lambda: search_rescale_megno(c, rebound), 60 * big)
+    run_phase(c, "whfast-tangent", lambda: search_whfast_tangent(c, rebound), 90 * big)
 
 
 if __name__ == "__main__":
